@@ -204,6 +204,25 @@ def synth(H, key, name, sig, picks):
     return kw
 
 
+def informative_signature(sig, name):
+    """A wrapper written as `def alias(self, *args, **kwargs)` hides the parameter names the argument registry is
+    keyed by: borrow the signature of the same-named method of another class (Hypergraph first) in that case."""
+    named = [p for p in sig.parameters.values() if p.name != "self" and p.kind not in (p.VAR_POSITIONAL, p.VAR_KEYWORD)]
+    has_var = any(p.kind in (p.VAR_POSITIONAL, p.VAR_KEYWORD) for p in sig.parameters.values())
+    if named or not has_var:
+        return sig
+    for cls in (xgi.Hypergraph, xgi.DiHypergraph, xgi.SimplicialComplex):
+        m = cls.__dict__.get(name)
+        if m is not None and callable(m):
+            try:
+                s2 = inspect.signature(m)
+            except (TypeError, ValueError):
+                continue
+            if any(p.name != "self" and p.kind not in (p.VAR_POSITIONAL, p.VAR_KEYWORD) for p in s2.parameters.values()):
+                return s2
+    return sig
+
+
 def call(H, key, cand, kw, picks=(0,)):
     # the same global RNG state for every phase (random_edge_shuffle draws from `random`)
     random.seed(repr(list(picks)))
@@ -230,6 +249,7 @@ def run_case(case, ctx):
     except (TypeError, ValueError):
         ctx.event("uncovered:" + cand)
         return
+    sig = informative_signature(sig, name)
     kw = synth(H, key, name, sig, case["picks"])
     if kw is None:
         ctx.event("uncovered:" + cand)
